@@ -82,12 +82,22 @@ LvOptFix == {BolL, Chr(98), NcgAB, NcgABorBA, NcgABorB}
 LvLawFix == {Chr(98), NcgAB, NcgABorB}
 QLawFix == {Q(2, 2, FALSE, "n"), Q(2, -1, FALSE, "n"), Q(1, 2, FALSE, "n"), QStar}         \* multi-character fixed-length bodies, anchors
 QFix == {Q(2, 2, FALSE, "n"), Q(1, 2, FALSE, "n"), Q(2, -1, FALSE, "n"), Q(0, 2, FALSE, "n"), QStar, QPlusL}
+LvNest == {Chr(97), Chr(98), GrpA, GrpB}                             \* groups under loops under loops
+LvCaseOpt == {Chr(233), Chr(201), Chr(955), Chr(923), Chr(53)}        \* non-ASCII letters next to quantified letters (flag i)
+LvPunct == {Chr(91), Chr(123), Chr(94), Chr(126), Chr(64), Chr(96), Chr(95), Chr(97),
+            Cls(FALSE, <<IC(93), IC(92)>>)}                                  \* ASCII punctuation 0x20 apart: no case relation
+FlagsS == {NoFlags, Fl(FALSE, FALSE, TRUE)}
+GrpAStar == [k |-> "grp", n |-> 0, r |-> [k |-> "rep", r |-> Chr(97), min |-> 0, max |-> -1, lazy |-> FALSE, q |-> "s"]]   \* (a*)
+NcgBolAOpt == [k |-> "ncg", r |-> [k |-> "seq", xs |-> <<BolL, [k |-> "rep", r |-> Chr(97), min |-> 0, max |-> 1, lazy |-> FALSE, q |-> "s"]>>]]
+LvDynEmpty == {BolL, EolL, Chr(97), Bref(1), GrpAStar, NcgBolAOpt}    \* bodies that match empty only dynamically
+QCount2 == {Q(2, 2, FALSE, "n"), Q(2, -1, FALSE, "n"), Q(1, 2, FALSE, "n"), Q(3, 3, FALSE, "n"), QPlus, QStar, Q(2, 2, TRUE, "n")}
 LvAstral == {Chr(66560), Chr(769), Chr(97), Dot, Cls(FALSE, <<IC(66560), IC(97)>>)}
 LvLoop == {Chr(97), Chr(98), BolL, EolL, Bref(1)}
 FlagsM == {NoFlags, Fl(FALSE, TRUE, FALSE)}
 QOptOnly == {QOpt}
 LvWs == {Chr(97), Cls(FALSE, <<IC(97), IC(32)>>), Chr(91), Chr(93), Chr(92), Bare(IE("d")),
-         Bare([t |-> "p", neg |-> FALSE, name |-> "Lu"]), Cls(TRUE, <<IC(9), IR(97, 98)>>)}
+         Bare([t |-> "p", neg |-> FALSE, name |-> "Lu"]), Cls(TRUE, <<IC(9), IR(97, 98)>>),
+         ClsSub(FALSE, <<IR(97, 99), IC(32)>>, Cls(FALSE, <<IC(98)>>))}                  \* [a-c -[b]] : a subtraction
 LvDial == {Chr(97), BolL, EolL, Chr(36), Chr(94), Bref(1), Dot, Cls(FALSE, <<IC(97), IC(94)>>)}
 LvBrefI == {Chr(97), Chr(65), Chr(98), Bref(1)}
 Grp0(r) == [k |-> "grp", n |-> 0, r |-> r]
